@@ -88,6 +88,7 @@ type PathResult struct {
 	Steps      int
 	Panic      *targetPanic
 	Observed   []string
+	OkModel    map[string]uint64 // a model of the completed path's condition (when WantOkModel)
 	PanicModel map[string]uint64
 	Events     []string // labels passed to vsym_Event, in execution order (native replay follows this order)
 }
@@ -125,6 +126,7 @@ type Machine struct {
 	TaintOK map[string]bool   // tainted packages whose zero-valued globals may be read anyway (stated in the spec)
 	IntTokens bool            // fmt %d of a symbolic integer yields an opaque token instead of forking
 	ConcOn  bool
+	WantOkModel bool // ask the solver for a model of every path that completes normally
 	globals map[*ssa.Global]*Value
 
 	inInit  bool
@@ -602,6 +604,10 @@ func (m *Machine) RunPath(entry *ssa.Function, item WorkItem) (res PathResult) {
 		}
 	default:
 		res.Outcome = "ok"
+	}
+	if res.Outcome == "ok" && m.WantOkModel && !m.ConcOn {
+		// a model of the whole path condition (inputs introduced late in the path included)
+		res.OkModel = m.model()
 	}
 	return
 }
